@@ -1,2 +1,256 @@
-(** C18 - theorems under construction. *)
-From Coq Require Import ZArith.
+(** C18 - the shift-and-round primitive produces the nearest float for every shift.
+    Statements only (closed by [exact]); proofs in proofs/RoundingFactsZ.v (integer level, closed
+    under the global context), proofs/RoundingFacts.v (link to Flocq's [round radix2 (FLT_exp ..)
+    ZnearestE] / [Zfloor] and to SpecFloat.binary_normalize), proofs/RoundingFactsRne.v +
+    proofs/Glue.v (the packed result equals the oracle RN of significand * 2^(exponent - bias)).
+    Every significand in [2^63, 2^64), every biased exponent in [-63, 2^30] (so [-63,2100] / [-63,320]
+    in particular), arbitrary build mode; format constants are the regenerated F32 / F64 through
+    the boolean side condition [rfmt_ok].
+    NOTE on the truncating variant: for significand * 2^(exp-bias) >= 2^emax the code returns the
+    +infinity fields, not the largest finite float ([round_down_correct] states exactly this); it
+    is recorded in KNOWN_FINDINGS (F3) - no caller can observe it. *)
+
+From Coq Require Import ZArith QArith List Bool Reals.
+From Coq Require Import Floats.SpecFloat.
+From Flocq Require Import Core.Core.
+From ML Require Import base.RustSem model.Fmt model.Mask model.Num model.Rounding model.FloatOps spec.Round spec.RneZ spec.RneBridge
+  gen.Consts proofs.RoundingFactsZ proofs.RoundingFacts proofs.RoundingFactsRne proofs.Glue.
+
+Open Scope Z_scope.
+
+Theorem C18_rfmt_ok_F32 :
+  rfmt_ok F32 = true.
+Proof. exact rfmt_ok_F32. Qed.
+
+Theorem C18_rfmt_ok_F64 :
+  rfmt_ok F64 = true.
+Proof. exact rfmt_ok_F64. Qed.
+
+Theorem C18_round_nearest_RN :
+  forall (f : format) (b : build) (mant exp : Z),
+         rfmt_ok f = true ->
+         bfmt_ok f = true ->
+         2 ^ 63 <= mant < 2 ^ 64 ->
+         -63 <= exp <= 2 ^ 30 ->
+         exists (r : extfloat) (w : Z),
+           round f b {| mant := mant; exp := exp |}
+             (fun (fp : extfloat) (s : Z) => round_nearest_tie_even b fp s cb_nearest_even) = 
+           Ok r /\ extended_to_float f b r = Ok w /\ w = RN f (ext_num f mant exp # Z.to_pos (ext_den f exp)).
+Proof. exact round_nearest_RN. Qed.
+
+Theorem C18_round_nearest_RN_F64 :
+  forall (b : build) (mant exp : Z),
+         2 ^ 63 <= mant < 2 ^ 64 ->
+         -63 <= exp <= 2100 ->
+         exists (r : extfloat) (w : Z),
+           round F64 b {| mant := mant; exp := exp |}
+             (fun (fp : extfloat) (s : Z) => round_nearest_tie_even b fp s cb_nearest_even) = 
+           Ok r /\
+           extended_to_float F64 b r = Ok w /\ w = RN F64 (ext_num F64 mant exp # Z.to_pos (ext_den F64 exp)).
+Proof. exact round_nearest_RN_F64. Qed.
+
+Theorem C18_round_nearest_RN_F32 :
+  forall (b : build) (mant exp : Z),
+         2 ^ 63 <= mant < 2 ^ 64 ->
+         -63 <= exp <= 320 ->
+         exists (r : extfloat) (w : Z),
+           round F32 b {| mant := mant; exp := exp |}
+             (fun (fp : extfloat) (s : Z) => round_nearest_tie_even b fp s cb_nearest_even) = 
+           Ok r /\
+           extended_to_float F32 b r = Ok w /\ w = RN F32 (ext_num F32 mant exp # Z.to_pos (ext_den F32 exp)).
+Proof. exact round_nearest_RN_F32. Qed.
+
+Theorem C18_round_nearest_correct :
+  forall f : format,
+         rfmt_ok f = true ->
+         forall (b : build) (mant0 exp0 : Z),
+         2 ^ 63 <= mant0 < 2 ^ 64 ->
+         -63 <= exp0 <= 2 ^ 30 ->
+         let rx := Generic_fmt.round radix2 (ffexp f) ZnearestE (ext_val f mant0 exp0) in
+         exists r : extfloat,
+           round f b {| mant := mant0; exp := exp0 |}
+             (fun (fp : extfloat) (s : Z) => round_nearest_tie_even b fp s cb_nearest_even) = 
+           Ok r /\
+           r = round_spec f (rnd_ne mant0) exp0 /\
+           0 <= exp r <= INFINITE_POWER f /\
+           (exp r < INFINITE_POWER f -> fields_val f r = rx /\ (0 <= rx < bpow radix2 (emax f))%R) /\
+           (exp r = INFINITE_POWER f -> mant r = 0 /\ (bpow radix2 (emax f) <= rx)%R).
+Proof. exact round_nearest_correct. Qed.
+
+Theorem C18_round_down_correct :
+  forall f : format,
+         rfmt_ok f = true ->
+         forall (b : build) (mant0 exp0 : Z),
+         2 ^ 63 <= mant0 < 2 ^ 64 ->
+         -63 <= exp0 <= 2 ^ 30 ->
+         let x := ext_val f mant0 exp0 in
+         let rx := Generic_fmt.round radix2 (ffexp f) Zfloor x in
+         exists r : extfloat,
+           round f b {| mant := mant0; exp := exp0 |} (round_down b) = Ok r /\
+           r = round_spec f (fun s : Z => mant0 / 2 ^ s) exp0 /\
+           0 <= exp r <= INFINITE_POWER f /\
+           (exp r < INFINITE_POWER f ->
+            fields_val f r = rx /\ (0 <= rx < bpow radix2 (emax f))%R /\ (x < bpow radix2 (emax f))%R) /\
+           (exp r = INFINITE_POWER f ->
+            mant r = 0 /\ (bpow radix2 (emax f) <= rx)%R /\ (bpow radix2 (emax f) <= x)%R).
+Proof. exact round_down_correct. Qed.
+
+Theorem C18_round_nearest_is_binary_normalize :
+  forall f : format,
+         rfmt_ok f = true ->
+         forall (b : build) (mant exp : Z),
+         2 ^ 63 <= mant < 2 ^ 64 ->
+         -63 <= exp <= 2 ^ 30 ->
+         exists (r : extfloat) (w : Z),
+           round f b {| mant := mant; exp := exp |}
+             (fun (fp : extfloat) (s : Z) => round_nearest_tie_even b fp s cb_nearest_even) = 
+           Ok r /\
+           extended_to_float f b r = Ok w /\
+           0 <= w < 2 ^ (fbits f - 1) /\
+           sf_of_bits f w = binary_normalize (prec f) (emax f) mant (exp - EXPONENT_BIAS f) false.
+Proof. exact round_nearest_is_binary_normalize. Qed.
+
+Theorem C18_round_nearest_packed :
+  forall f : format,
+         rfmt_ok f = true ->
+         forall (b : build) (mant exp : Z),
+         2 ^ 63 <= mant < 2 ^ 64 ->
+         -63 <= exp <= 2 ^ 30 ->
+         let rx := Generic_fmt.round radix2 (ffexp f) ZnearestE (ext_val f mant exp) in
+         exists (r : extfloat) (w : Z),
+           round f b {| mant := mant; exp := exp |}
+             (fun (fp : extfloat) (s : Z) => round_nearest_tie_even b fp s cb_nearest_even) = 
+           Ok r /\
+           extended_to_float f b r = Ok w /\
+           w = pack_fields f r /\
+           0 <= w < 2 ^ (fbits f - 1) /\
+           ((rx < bpow radix2 (emax f))%R ->
+            BinarySingleNaN.is_finite_SF (sf_of_bits f w) = true /\
+            BinarySingleNaN.sign_SF (sf_of_bits f w) = false /\
+            BinarySingleNaN.SF2R radix2 (sf_of_bits f w) = rx) /\
+           ((bpow radix2 (emax f) <= rx)%R -> sf_of_bits f w = S754_infinity false).
+Proof. exact round_nearest_packed. Qed.
+
+Theorem C18_round_down_packed :
+  forall f : format,
+         rfmt_ok f = true ->
+         forall (b : build) (mant exp : Z),
+         2 ^ 63 <= mant < 2 ^ 64 ->
+         -63 <= exp <= 2 ^ 30 ->
+         let x := ext_val f mant exp in
+         let rx := Generic_fmt.round radix2 (ffexp f) Zfloor x in
+         exists (r : extfloat) (w : Z),
+           round f b {| mant := mant; exp := exp |} (round_down b) = Ok r /\
+           extended_to_float f b r = Ok w /\
+           w = pack_fields f r /\
+           0 <= w < 2 ^ (fbits f - 1) /\
+           ((x < bpow radix2 (emax f))%R ->
+            BinarySingleNaN.is_finite_SF (sf_of_bits f w) = true /\
+            BinarySingleNaN.sign_SF (sf_of_bits f w) = false /\
+            BinarySingleNaN.SF2R radix2 (sf_of_bits f w) = rx) /\
+           ((bpow radix2 (emax f) <= x)%R -> sf_of_bits f w = S754_infinity false).
+Proof. exact round_down_packed. Qed.
+
+Theorem C18_round_ne_Z :
+  forall (f : format) (b : build) (mant exp : Z),
+         rfmt_ok f = true ->
+         2 ^ 63 <= mant < 2 ^ 64 ->
+         -63 <= exp <= 2 ^ 30 ->
+         round f b {| mant := mant; exp := exp |}
+           (fun (fp : extfloat) (s : Z) => round_nearest_tie_even b fp s cb_nearest_even) =
+         Ok (round_spec f (rnd_ne mant) exp).
+Proof. exact round_ne_Z. Qed.
+
+Theorem C18_round_cb_Z :
+  forall (f : format) (b : build) (mant exp : Z) (cb : bool -> bool -> bool -> bool),
+         rfmt_ok f = true ->
+         2 ^ 63 <= mant < 2 ^ 64 ->
+         -63 <= exp <= 2 ^ 30 ->
+         round f b {| mant := mant; exp := exp |}
+           (fun (fp : extfloat) (s : Z) => round_nearest_tie_even b fp s cb) =
+         Ok (round_spec f (rnd_cb cb mant) exp).
+Proof. exact round_cb_Z. Qed.
+
+Theorem C18_round_down_round_Z :
+  forall (f : format) (b : build) (mant exp : Z),
+         rfmt_ok f = true ->
+         2 ^ 63 <= mant < 2 ^ 64 ->
+         -63 <= exp <= 2 ^ 30 ->
+         round f b {| mant := mant; exp := exp |} (round_down b) =
+         Ok (round_spec f (fun s : Z => mant / 2 ^ s) exp).
+Proof. exact round_down_round_Z. Qed.
+
+Theorem C18_round_nearest_tie_even_Z :
+  forall (b : build) (mant exp s : Z) (cb : bool -> bool -> bool -> bool),
+         0 <= mant < 2 ^ 64 ->
+         1 <= s <= 64 ->
+         - 2 ^ 31 <= exp + s < 2 ^ 31 ->
+         round_nearest_tie_even b {| mant := mant; exp := exp |} s cb =
+         Ok {| mant := rnd_cb cb mant s; exp := exp + s |}.
+Proof. exact round_nearest_tie_even_Z. Qed.
+
+Theorem C18_round_down_Z :
+  forall (b : build) (mant exp s : Z),
+         0 <= mant < 2 ^ 64 ->
+         0 <= s <= 64 ->
+         - 2 ^ 31 <= exp + s < 2 ^ 31 ->
+         round_down b {| mant := mant; exp := exp |} s = Ok {| mant := mant / 2 ^ s; exp := exp + s |}.
+Proof. exact round_down_Z. Qed.
+
+Theorem C18_nth_bit_ok :
+  forall (b : build) (n : Z), 0 <= n < 64 -> nth_bit b n = Ok (2 ^ n).
+Proof. exact nth_bit_ok. Qed.
+
+Theorem C18_lower_n_mask_ok :
+  forall (b : build) (n : Z), 0 <= n <= 64 -> lower_n_mask b n = Ok (2 ^ n - 1).
+Proof. exact lower_n_mask_ok. Qed.
+
+Theorem C18_lower_n_halfway_ok :
+  forall (b : build) (n : Z),
+         0 <= n <= 64 -> lower_n_halfway b n = Ok (if n =? 0 then 0 else 2 ^ (n - 1)).
+Proof. exact lower_n_halfway_ok. Qed.
+
+Theorem C18_mask_helpers_release_outside :
+  nth_bit release_build 64 = Ok 1 /\
+         lower_n_mask release_build 65 = Ok 1 /\
+         lower_n_halfway release_build 65 = Ok 1 /\
+         nth_bit {| ovf := true; dbg := false |} 64 = Panic PkOverflow /\
+         lower_n_mask {| ovf := true; dbg := false |} 65 = Panic PkOverflow /\
+         lower_n_halfway {| ovf := true; dbg := false |} 65 = Panic PkOverflow.
+Proof. exact mask_helpers_release_outside. Qed.
+
+Theorem C18_round_nearest_rne_bits :
+  forall f : format,
+         rfmt_ok f = true ->
+         forall (b : build) (mant exp n d : Z),
+         2 ^ 63 <= mant < 2 ^ 64 ->
+         -63 <= exp <= 2 ^ 30 ->
+         0 < d ->
+         same_value f n d mant exp ->
+         exists (r : extfloat) (w : Z),
+           round f b {| mant := mant; exp := exp |}
+             (fun (fp : extfloat) (s : Z) => round_nearest_tie_even b fp s cb_nearest_even) = 
+           Ok r /\ extended_to_float f b r = Ok w /\ rne_bits f n d w.
+Proof. exact round_nearest_rne_bits. Qed.
+
+
+Print Assumptions C18_rfmt_ok_F32.
+Print Assumptions C18_rfmt_ok_F64.
+Print Assumptions C18_round_nearest_RN.
+Print Assumptions C18_round_nearest_RN_F64.
+Print Assumptions C18_round_nearest_RN_F32.
+Print Assumptions C18_round_nearest_correct.
+Print Assumptions C18_round_down_correct.
+Print Assumptions C18_round_nearest_is_binary_normalize.
+Print Assumptions C18_round_nearest_packed.
+Print Assumptions C18_round_down_packed.
+Print Assumptions C18_round_ne_Z.
+Print Assumptions C18_round_cb_Z.
+Print Assumptions C18_round_down_round_Z.
+Print Assumptions C18_round_nearest_tie_even_Z.
+Print Assumptions C18_round_down_Z.
+Print Assumptions C18_nth_bit_ok.
+Print Assumptions C18_lower_n_mask_ok.
+Print Assumptions C18_lower_n_halfway_ok.
+Print Assumptions C18_mask_helpers_release_outside.
+Print Assumptions C18_round_nearest_rne_bits.
